@@ -203,7 +203,7 @@ fn show_tree_node(n: &TreeNode) -> String {
     )
 }
 
-fn show_result(r: &VerifyResult) -> String {
+pub fn show_result(r: &VerifyResult) -> String {
     format!("({},{},{})", r.epoch, r.version, hex_or_dash(&r.value.0))
 }
 
